@@ -388,6 +388,18 @@ func driveChannel(s *shardSet, rng *rand.Rand, thorough bool) ([]string, map[str
 						w.ChanSample(par, c, i)
 					}
 				}
+				// a partly filled last frame: the views still report the PARENT's per-channel length and capacity
+				if ch > 1 && w.Views[par].Len() < w.Views[par].Cap() {
+					w.AppendSample(par, w.NextStamp())
+					for c := 0; c < ch; c++ {
+						w.ChanShape(par, c)
+						w.ChanIndex(par, c, w.Views[par].Length()-1, 0)
+					}
+					w.ChanSample(par, 0, w.Views[par].Length()-1)
+					for k := 1; k < ch; k++ {
+						w.AppendSample(par, w.NextStamp())
+					}
+				}
 				// the views were taken above; the parent now changes shape (sample appends into spare
 				// capacity, then a growing append) and the SAME views must keep addressing it
 				for k := 0; k < ch; k++ {
